@@ -2,7 +2,10 @@
 
 Monitors: (a) function boundary of encode_command_string/decode_command_string with an equality+type oracle;
 (b) the real AsyncioBcpClientSocket / BCPClientSocket.read_message on a real asyncio.StreamReader fed in
-generated chunkings: differential across chunkings + per-line decode model + payload identity + order.
+generated chunkings: differential across chunkings + per-line decode model + payload identity + order;
+(c) every 8th case: the same train through a booted machine's real BCP receive path (mock socket -> BCPClientSocket ->
+BcpTransportManager -> BcpInterface -> registered command callbacks, one of which suspends): handlers must be entered
+and left strictly in the order sent, payloads intact.
 """
 import math
 import re
@@ -29,7 +32,8 @@ TIERS = {
     "quick": {"cases": 3200, "batch": 100, "case_timeout": 30},
     "thorough": {"cases": 96000, "batch": 500, "case_timeout": 60},
 }
-MIN_EVALS = {"quick": {"roundtrip": 20000, "single_line": 20000, "framing_diff": 3000, "framing_model": 3000}}
+MIN_EVALS = {"quick": {"roundtrip": 20000, "single_line": 20000, "framing_diff": 3000, "framing_model": 3000,
+                       "dispatch_order_e2e": 300}}
 SHRINK_KEYS = ["msgs", "train"]
 
 _PREFIX_RE = re.compile(r"^(int:|float:)|^(?i:bool:true|bool:false)$|^NoneType:$")
@@ -117,7 +121,8 @@ def gen_case(rng, tier, index):
     for _ in range(4):
         mode = rng.choice(["one", "small", "mixed", "big", "lines"])
         chunkings.append([mode, rng.randrange(1 << 30)])
-    return {"msgs": msgs, "train": train, "chunkings": chunkings}
+    # every 8th case also runs the train end to end through a booted machine's BCP receive path
+    return {"msgs": msgs, "train": train, "chunkings": chunkings, "e2e": (index % 8 == 0) and (1 + index % 3)}
 
 
 # ---------------------------------------------------------------------------------------------
@@ -237,6 +242,92 @@ def _undo_json(o):
 def _restore_floats(o):
     # replay files carry nan/inf as strings; generation-time cases carry real floats
     return o
+
+
+def _run_e2e(case, clauses, viol, obs, shapes):
+    """Real machine with BCP enabled, real BCPClientSocket behind mpf's mock socket, real transport manager and
+    interface; two registered command callbacks, one of which suspends (awaits the machine clock)."""
+    import asyncio
+    from vlib.boot import VMachine, MpfCrash
+    from mpf.tests.loop import MockQueueSocket
+    from mpf.core.bcp.bcp_socket_client import encode_command_string
+
+    class Sock(MockQueueSocket):
+        def send(self, data):
+            if data == b'reset\n':
+                self.recv_queue.append(b'reset_complete\n')
+                return len(data)
+            return super().send(data)
+
+    holder = {}
+
+    def mock_loop(tc):
+        holder["sock"] = Sock(tc.loop)
+        tc.clock.mock_socket("localhost", 5050, holder["sock"])
+
+    msgs = []
+    stream = b""
+    for n, (cmd, kwargs, payload_hex) in enumerate(case["train"]):
+        slow = (n + case["e2e"]) % 3 == 0
+        kw = {"seq": n, "tag": "t%d" % n}
+        raw = encode_command_string("vslow" if slow else "vquick", **kw).encode()
+        payload = bytes.fromhex(payload_hex) if payload_hex is not None else None
+        if payload is not None:
+            raw += b"&bytes=" + str(len(payload)).encode()
+        raw += b"\n"
+        if payload is not None:
+            raw += payload
+        stream += raw
+        msgs.append((n, slow, payload))
+    if not msgs:
+        return
+    clauses.setdefault("dispatch_order_e2e", 0)
+    clauses.setdefault("payload_identity_e2e", 0)
+    try:
+        with VMachine("modes: []\n", use_bcp=True, mock_loop=mock_loop, patches={"bcp": {"servers": []}}) as vm:
+            m = vm.machine
+            trace = []
+            got_payloads = {}
+
+            async def vslow(client, seq, tag, rawbytes=None, **kwargs):
+                trace.append(("enter", seq))
+                got_payloads[seq] = rawbytes
+                await asyncio.sleep(0.05)
+                trace.append(("leave", seq))
+
+            async def vquick(client, seq, tag, rawbytes=None, **kwargs):
+                trace.append(("enter", seq))
+                got_payloads[seq] = rawbytes
+                trace.append(("leave", seq))
+
+            m.bcp.interface.register_command_callback("vslow", vslow)
+            m.bcp.interface.register_command_callback("vquick", vquick)
+            vm.advance(1.0)
+            for mode, seed in [["whole", 0]] + case["chunkings"][:2]:
+                del trace[:]
+                got_payloads.clear()
+                chunks = [stream] if mode == "whole" else _chunks(stream, mode, seed)
+                holder["sock"].recv_queue.extend(chunks)
+                vm.advance(0.1 * len(msgs) + 2.0)
+                obs["e2e_messages"] = obs.get("e2e_messages", 0) + len(msgs)
+                shapes.add("E:%s:%d" % (mode, min(len(msgs), 5)))
+                exp = []
+                for n, slow, payload in msgs:
+                    exp += [("enter", n), ("leave", n)]
+                clauses["dispatch_order_e2e"] += 1
+                if trace != exp:
+                    viol.append({"clause": "dispatch_order_e2e", "sig": "C19:commands_not_dispatched_in_order_sent",
+                                 "detail": {"mode": mode, "seed": seed, "trace": trace[:40], "expected": exp[:40]}})
+                    break
+                for n, slow, payload in msgs:
+                    clauses["payload_identity_e2e"] += 1
+                    if (got_payloads.get(n) or None) != (payload or None):
+                        viol.append({"clause": "payload_identity_e2e", "sig": "C19:payload_altered_end_to_end",
+                                     "detail": {"mode": mode, "seq": n}})
+                        break
+    except MpfCrash as e:
+        viol.append({"clause": "dispatch_order_e2e", "sig": "C19:crash_in_bcp_receive_path",
+                     "detail": {"exc": repr(e)[:500]}})
 
 
 def run_case(case):
@@ -393,6 +484,10 @@ def run_case(case):
                                                 "got": repr(got)[:600], "expected": repr(expected)[:600]}})
         finally:
             loop.close()
+
+    # ---- (c) end to end: commands of one connection are dispatched in the order sent, also when a handler suspends
+    if case.get("e2e"):
+        _run_e2e(case, clauses, viol, obs, shapes)
 
     # unknown signatures first so that they are the ones replayed/shrunk
     known_order = ("C19:double_unquote", "C19:type_prefix_string", "C19:key_named_json", "C19:bytes_marker_in_text")
